@@ -6,6 +6,7 @@
 pub mod stubs;
 pub mod streams;
 
+pub mod c03_limits;
 pub mod c06_convert;
 pub mod c22_keepalive;
 pub mod c23_revise;
